@@ -107,23 +107,30 @@ def judge(ctx, binary, cases):
     return verdicts
 
 
+def in_quantifier(c):
+    """the randomized solver is claimed only on exact-rank data (rank of the covariance <= target_dimension)"""
+    return c["solver"] != "rand" or sp.centred_points_rank(c["rows"]) <= c["d"]
+
+
 def shrink(ctx, binary, c, sig, budget=30):
     def failing_rows(keep):
         if len(keep) < 2:
             return False
-        return judge(ctx, binary, [subcase(c, keep)])[0]["sig"] == sig
+        sub = subcase(c, keep)
+        return in_quantifier(sub) and judge(ctx, binary, [sub])[0]["sig"] == sig
     rows = vlib.ddmin(list(range(c["N"])), failing_rows, max_tests=budget)
 
     def failing_cols(keep):
         if len(keep) < 1:
             return False
-        return judge(ctx, binary, [subcase(c, rows, keep)])[0]["sig"] == sig
+        sub = subcase(c, rows, keep)
+        return in_quantifier(sub) and judge(ctx, binary, [sub])[0]["sig"] == sig
     cols = vlib.ddmin(list(range(c["D"])), failing_cols, max_tests=budget)
     s = subcase(c, rows, cols)
     for d in range(1, s["d"]):
         t = dict(s)
         t["d"] = d
-        if judge(ctx, binary, [t])[0]["sig"] == sig:
+        if in_quantifier(t) and judge(ctx, binary, [t])[0]["sig"] == sig:
             return t
     return s
 
@@ -264,6 +271,10 @@ def build(ctx):
 
 def run_all(ctx, binary, cases, do_shrink=True):
     ctx._seen = getattr(ctx, "_seen", {})
+    kept = [c for c in cases if in_quantifier(c)]
+    if len(kept) != len(cases):
+        ctx.stat("skipped:randomized-solver-on-rank>d(outside the property)", len(cases) - len(kept))
+    cases = kept
     for i in range(0, len(cases), 40):
         chunk = cases[i:i + 40]
         for c, v in zip(chunk, judge(ctx, binary, chunk)):
